@@ -104,5 +104,32 @@ theorem rewardsStarted_is_source (a : Asset) (t : Time) :
     · have : ¬ t ≥ a.startTime := by unfold Time at *; omega
       simp [h1, h2, this]
 
+theorem getIndexByAlliance_is_source (r : List RewardHistory) (a : Denom) :
+    Generated.GetIndexByAlliance r a = .ok (histFilterByAlliance r a) := by
+  unfold Generated.GetIndexByAlliance histFilterByAlliance
+  show ((forIn r (id ([] : List RewardHistory)) _ : Except Err (List RewardHistory)) >>= fun s => Pure.pure s) = _
+  have key : ∀ (l init : List RewardHistory),
+      ((forIn l init (fun rh ris =>
+          if ((rh.alliance == some a) || (rh.alliance == none)) = true then
+            (do Pure.pure PUnit.unit; Pure.pure (ForInStep.yield (ris ++ [rh])) : Except Err _)
+          else (do Pure.pure PUnit.unit; Pure.pure (ForInStep.yield ris))) : Except Err (List RewardHistory)) >>= fun s => Pure.pure s) =
+        .ok (init ++ l.filter fun rh => rh.alliance == some a || rh.alliance == none) := by
+    intro l
+    induction l with
+    | nil => intro init; simp; rfl
+    | cons c t ih =>
+      intro init
+      rw [List.forIn_cons]
+      by_cases h : ((c.alliance == some a) || (c.alliance == none)) = true
+      · simp only [h, if_true, List.filter_cons_of_pos]
+        have := ih (init ++ [c])
+        simp only [List.append_assoc, List.singleton_append] at this
+        exact this
+      · simp only [h, if_false, Bool.false_eq_true]
+        rw [List.filter_cons_of_neg (by simpa using h)]
+        exact ih init
+  have := key r []
+  simpa using this
+
 end ArithTie
 end Alliance
